@@ -42,6 +42,14 @@ def nest(shape, n, leaf="1"):
 
 def gen(ctx):
     rng = ctx.rng
+    # the other public routes into the compiler (two-step API; a scope that has been compiled against before; Scope::default())
+    for _i in range(3000 if ctx.thorough else 300):
+        _p = G.gen_program(rng)
+        if _i % 4 == 0:
+            _p, _ = G.mutate_ast(rng, _p)
+        yield Case("CMPX", G.hx(G.render(_p, G.Layout(rng, spelling=rng.choice(["sym", "word"])))), tags=("other-routes",))
+    for _src in G.semantic_corner_programs():
+        yield Case("CMPX", G.hx(_src), tags=("other-routes",))
     for _src in G.corner_programs():
         yield Case("CMP", "%s - -" % G.hx(_src), tags=("corner-grid",))
     n = 30000 if ctx.thorough else 1500
@@ -51,7 +59,7 @@ def gen(ctx):
         src = G.render(p, L)
         upd = "-"
         if rng.random() < 0.2:
-            cands = G.all_names(p) + ["Cwnd", "nosuch"]
+            cands = G.all_names(p) + ["Cwnd", "nosuch", "zzzzzz", "~~", "A", "0", "{", "Report.", "\u00e9"]
             upd = ";".join("%s=%d" % (G.hx(rng.choice(cands)), rng.choice([0, 1, 7, 2**31 - 1, 2**31, 2**32 - 1])) for _ in range(rng.randrange(1, 3)))
         yield Case("CMP", "%s %s -" % (G.hx(src), upd), tags=("generated",))
         if i % 5 == 0:
@@ -90,4 +98,10 @@ def nontrivial(c, r):
 
 def oracle(c, impl_res):
     parts = c.args.split(" ")
+    if c.cmd == "CMPX":
+        # the image contract must also hold for the image of a SECOND compilation against the same scope (R2)
+        r2 = [p for p in impl_res.split(" | ") if p.startswith("R2 ")]
+        if not r2 or not r2[0].startswith("R2 OK "):
+            return None
+        return ("ORC", "C03 %s - @@ OK %s -" % (parts[0], r2[0].split(" ")[2]))
     return ("ORC", "C03 %s %s @@ %s" % (parts[0], parts[1], impl_res))
